@@ -304,6 +304,99 @@ def _handler_factory():
     return lambda: ProtocolHandler(info, caps)
 
 
+# ---------------------------------------------------------------------------
+# other session stores an application may plug in (handler.session_manager = ...)
+# ---------------------------------------------------------------------------
+STORE_KINDS = ["recording-store", "rows-as-dicts:fresh-record-on-every-read", "in-memory-subclass:deep-copies-on-read"]
+
+
+def make_store(kind: str):
+    import copy
+    import itertools as _it
+
+    from chuk_mcp.server.session.base import BaseSessionManager, SessionInfo
+    from chuk_mcp.server.session.memory import InMemorySessionManager
+
+    if kind == "recording-store":
+        class RecordingStore(BaseSessionManager):
+            """Keeps the records it is given and logs the arguments of every call."""
+
+            def __init__(self):
+                self.rows: Dict[str, Any] = {}
+                self.calls: List[Any] = []
+                self._n = _it.count(1)
+
+            def create_session(self, client_info, protocol_version, metadata=None):
+                self.calls.append(["create_session", repr(protocol_version)[:40]])
+                sid = f"rec-{next(self._n)}-{self.generate_session_id()}"
+                self.rows[sid] = SessionInfo(sid, client_info, protocol_version, 0.0, 0.0, metadata or {})
+                return sid
+
+            def get_session(self, session_id):
+                self.calls.append(["get_session"])
+                return self.rows.get(session_id)
+
+            def update_activity(self, session_id):
+                self.calls.append(["update_activity"])
+                return session_id in self.rows
+
+            def cleanup_expired(self, max_age=3600):
+                return 0
+
+            def list_sessions(self):
+                return dict(self.rows)
+
+            def delete_session(self, session_id):
+                return self.rows.pop(session_id, None) is not None
+
+        return RecordingStore()
+    if kind.startswith("rows-as-dicts"):
+        class RowStore(BaseSessionManager):
+            """Rows are plain JSON-like dicts (as a database would hold them); every read builds a fresh SessionInfo."""
+
+            def __init__(self):
+                self.rows: Dict[str, Dict[str, Any]] = {}
+
+            def _rec(self, sid):
+                r = self.rows[sid]
+                return SessionInfo(sid, copy.deepcopy(r["client_info"]), copy.deepcopy(r["protocol_version"]), r["created_at"],
+                                   r["last_activity"], dict(r["metadata"]))
+
+            def create_session(self, client_info, protocol_version, metadata=None):
+                sid = self.generate_session_id()
+                self.rows[sid] = {"client_info": copy.deepcopy(client_info), "protocol_version": copy.deepcopy(protocol_version),
+                                  "created_at": 0.0, "last_activity": 0.0, "metadata": dict(metadata or {})}
+                return sid
+
+            def get_session(self, session_id):
+                return self._rec(session_id) if session_id in self.rows else None
+
+            def update_activity(self, session_id):
+                return session_id in self.rows
+
+            def cleanup_expired(self, max_age=3600):
+                return 0
+
+            def list_sessions(self):
+                return {sid: self._rec(sid) for sid in self.rows}
+
+            def delete_session(self, session_id):
+                return self.rows.pop(session_id, None) is not None
+
+        return RowStore()
+
+    class CopyingStore(InMemorySessionManager):
+        """The built-in store, handing out deep copies on every read."""
+
+        def get_session(self, session_id):
+            return copy.deepcopy(super().get_session(session_id))
+
+        def list_sessions(self):
+            return copy.deepcopy(super().list_sessions())
+
+    return CopyingStore()
+
+
 def grid_strings(cfg) -> List[str]:
     y = cfg["year"]
     if cfg["mode"] == "all":
@@ -317,6 +410,14 @@ def run_block(cfg) -> Dict[str, Any]:
 
     supported = supported_set()
     factory = _handler_factory()
+    store_kind = STORE_KINDS[cfg["store"]] if cfg.get("store") is not None else None
+    if store_kind is not None:
+        plain_factory = factory
+
+        def factory():
+            h = plain_factory()
+            h.session_manager = make_store(store_kind)      # the application plugs in its own store
+            return h
     counters: Dict[str, int] = {}
     first: Dict[str, Dict[str, Any]] = {}
     tags = set()
@@ -327,6 +428,9 @@ def run_block(cfg) -> Dict[str, Any]:
     cur: Dict[str, Any] = {}
 
     def bad(sig, msg, wire):
+        if store_kind is not None:
+            sig = dict(sig, store=store_kind)
+            msg = f"[session store: {store_kind}] {msg}"
         key = json.dumps(sig, sort_keys=True)
         e = first.get(key)
         if e is None:
@@ -355,8 +459,10 @@ def run_block(cfg) -> Dict[str, Any]:
         cases = []
         for n, (sh, k) in enumerate(combos):
             v = ABSENT if cfg["v"] == -1 else versions[cfg["v"]]
-            cases.append((v, k, sh, 10**12 + (cfg["v"] + 1) * 16 + n,
-                          {"part": "single", "src": "misc", "v": cfg["v"], "ci": k, "shape": sh}))
+            one = {"part": "single", "src": "misc", "v": cfg["v"], "ci": k, "shape": sh}
+            if cfg.get("store") is not None:
+                one["store"] = cfg["store"]
+            cases.append((v, k, sh, 10**12 + (cfg["v"] + 1) * 16 + n, one))
     else:  # single case (second pass / replay file)
         v = cfg["v"] if cfg["src"] == "grid" else (ABSENT if cfg["v"] == -1 else versions[cfg["v"]])
         cases = [(v, cfg["ci"], cfg["shape"], 0, cfg)]
@@ -760,6 +866,152 @@ def run_queries(cfg) -> Dict[str, Any]:
     return obs
 
 
+# ---------------------------------------------------------------------------
+# a caller edits the LIST a public function handed it: no server may change its mind
+# ---------------------------------------------------------------------------
+NEW_VERSION = "2030-01-01"
+LIST_MUTATIONS = ["append", "insert-front", "extend", "clear", "remove-first", "replace-first", "slice-assign", "pop-last",
+                  "reverse"]
+
+
+def list_returning_callables():
+    """Public callables without required parameters, of the versioning module, its classes and the initialize
+    send_messages module, that return a list (found by calling them)."""
+    import inspect
+
+    import chuk_mcp.protocol.messages.initialize.send_messages as M
+    import chuk_mcp.protocol.types.versioning as V
+
+    cands = []
+    for mod in (V, M):
+        for name, obj in sorted(vars(mod).items()):
+            if name.startswith("_"):
+                continue
+            if inspect.isfunction(obj) and obj.__module__ == mod.__name__ and not inspect.iscoroutinefunction(obj):
+                cands.append((f"{mod.__name__.rsplit('.', 1)[1]}.{name}", obj))
+            elif inspect.isclass(obj) and obj.__module__ == mod.__name__ and mod is V:
+                for an in sorted(dir(obj)):
+                    attr = getattr(obj, an)
+                    if not an.startswith("_") and callable(attr) and not inspect.iscoroutinefunction(attr):
+                        cands.append((f"{name}.{an}", attr))
+    out = []
+    for name, fn in cands:
+        try:
+            required = [p for p in inspect.signature(fn).parameters.values()
+                        if p.default is p.empty and p.kind in (p.POSITIONAL_ONLY, p.POSITIONAL_OR_KEYWORD)]
+            if required:
+                continue
+            if isinstance(fn(), list):
+                out.append((name, fn))
+        except Exception:  # noqa: BLE001
+            continue
+    return out
+
+
+def run_listmut(cfg) -> Dict[str, Any]:
+    import chuk_mcp.protocol.messages.initialize.send_messages as M
+    import chuk_mcp.protocol.types.versioning as V
+    from chuk_mcp.protocol.messages.json_rpc_message import parse_message
+
+    supported = supported_set()                   # the true set, read BEFORE anything is edited
+    fns = dict(list_returning_callables())
+    name, mut = cfg["fn"], LIST_MUTATIONS[cfg["mut"]]
+    if name not in fns:
+        raise core.HarnessError(f"list-returning callable {name} disappeared")
+    module_lists = [("versioning.SUPPORTED_VERSIONS", V.SUPPORTED_VERSIONS)]
+    if isinstance(getattr(M, "SUPPORTED_PROTOCOL_VERSIONS", None), list):
+        module_lists.append(("send_messages.SUPPORTED_PROTOCOL_VERSIONS", M.SUPPORTED_PROTOCOL_VERSIONS))
+    snapshots = [list(lst) for _n, lst in module_lists]
+    factory = _handler_factory()
+    counters: Dict[str, int] = {}
+    viol: List[dict] = []
+    tags = set()
+    phase = {"n": ""}
+
+    def count(k, n=1):
+        counters[k] = counters.get(k, 0) + n
+
+    def bad(sig, msg, wire):
+        viol.append({"sig": dict(sig, after_editing_the_list_returned_by=name, edit=mut, phase=phase["n"]),
+                     "msg": f"a caller did `{mut}` on the list returned by {name}() [{phase['n']}]: {msg}; "
+                            f"input={json.dumps(wire, ensure_ascii=True)}"})
+
+    async def one(handler, v, fresh):
+        r = await judge_step(handler, parse_message, supported, build_init(v, CLIENT_INFOS[1]), v, count, bad, fresh=fresh)
+        tags.add(r["tag"])
+
+    async def main():
+        pre = factory()
+        lst = fns[name]()
+        if mut == "append":
+            lst.append(NEW_VERSION)
+        elif mut == "insert-front":
+            lst.insert(0, NEW_VERSION)
+        elif mut == "extend":
+            lst.extend([NEW_VERSION, "bogus"])
+        elif mut == "clear":
+            lst.clear()
+        elif mut == "remove-first" and lst:
+            lst.remove(lst[0])
+        elif mut == "replace-first" and lst:
+            lst[0] = NEW_VERSION
+        elif mut == "slice-assign":
+            lst[:] = [NEW_VERSION]
+        elif mut == "pop-last" and lst:
+            lst.pop()
+        elif mut == "reverse":
+            lst.reverse()
+        for v in [NEW_VERSION, "bogus"] + list(supported):
+            phase["n"] = "fresh-handler"
+            await one(factory(), v, True)
+            phase["n"] = "handler-built-before-the-edit"
+            await one(pre, v, False)
+
+    loop = new_loop(horizon=5)
+    try:
+        with sched.patched_uuid():
+            status, val = loop.run_main(main())
+            errors = loop.collect_errors()
+            loop.abandon()
+    finally:
+        # put the library's own lists back (in place) and say so if the caller's edit had reached them
+        changed = []
+        for (lname, lst), snap in zip(module_lists, snapshots):
+            if list(lst) != snap:
+                changed.append((lname, list(lst)))
+                lst[:] = snap
+    if status != "ok":
+        raise core.HarnessError(f"listmut {cfg} did not complete: {status} {val!r}")
+    if errors:
+        raise core.HarnessError(f"listmut {cfg}: event loop reported {errors[:2]}")
+    for lname, now in changed:
+        viol.insert(0, {"sig": {"class": "library-list-changed-by-caller", "list": lname, "through": name, "edit": mut},
+                        "msg": f"editing ({mut}) the list returned by {name}() changed the library's own {lname} to {now}"})
+    obs: Dict[str, Any] = {"outcome": "+".join(sorted(tags)) + ("|library-list-changed" if changed else ""), "fn": name, "edit": mut}
+    if cfg.get("single"):
+        obs["violations"] = viol
+        obs["counters"] = {"single-cases": 1}
+        return obs
+    obs["violations"] = []
+    c = dict(counters)
+    c["list-edit-executions"] = 1
+    seen_sig = set()
+    for v in viol:
+        k = json.dumps(v["sig"], sort_keys=True)
+        c["sig:" + k] = c.get("sig:" + k, 0) + 1
+        if k not in seen_sig:
+            seen_sig.add(k)
+            c[twopass.fail_key(v["sig"], cfg["mut"], dict(cfg, single=True))] = 1
+    if viol:
+        c["violating-judgements"] = len(viol)
+    obs["counters"] = c
+    return obs
+
+
+def listmut_configs() -> List[Dict[str, Any]]:
+    return [{"part": "listmut", "fn": name, "mut": k} for name, _f in list_returning_callables() for k in range(len(LIST_MUTATIONS))]
+
+
 def queries_configs(supported: List[str]) -> List[Dict[str, Any]]:
     n = len(query_values(supported))
     return [{"part": "queries", "vals": list(range(i, min(n, i + QUERY_CHUNK)))} for i in range(0, n, QUERY_CHUNK)]
@@ -922,6 +1174,8 @@ def run_one(ctl: explorer.Ctl, cfg: Dict[str, Any]) -> Dict[str, Any]:
         return run_sequences(ctl, cfg)
     if cfg["part"] == "queries":
         return run_queries(cfg)
+    if cfg["part"] == "listmut":
+        return run_listmut(cfg)
     if cfg["part"] == "pairing":
         return run_pairing(cfg)
     if cfg["part"] == "twostep":
@@ -976,6 +1230,8 @@ def run(tier: str, only=None) -> core.Result:
     # the parts with the most varied signatures first (the runner keeps the first 400 violations)
     parts = {
         "misc": [{"part": "misc", "v": i} for i in range(-1, len(versions))],
+        "other-session-stores": [{"part": "misc", "v": i, "store": k} for k in range(len(STORE_KINDS))
+                                 for i in range(-1, len(versions))],
         "twostep": twostep_configs(supported),
         "pairing": pairing_configs(tier),
         "grid": grid_configs(tier),
@@ -1001,8 +1257,17 @@ def run(tier: str, only=None) -> core.Result:
         qcfgs = queries_configs(supported)
         outq = explorer.explore(RUN, qcfgs)
         sched.absorb(res, "queries-then-initialize", RUN, outq, qcfgs, min_outcomes=1)
-        twopass.second_pass(res, RUN, ["queries-then-initialize"], per_sig=3, name="failing-query-chunks-one-by-one")
-    qc = res.parts.get("queries-then-initialize", {}).get("counters", {})
+        lcfgs = listmut_configs()
+        outl = explorer.explore(RUN, lcfgs)
+        sched.absorb(res, "caller-edits-a-returned-list", RUN, outl, lcfgs, min_outcomes=1)
+        twopass.second_pass(res, RUN, ["queries-then-initialize", "caller-edits-a-returned-list"], per_sig=3,
+                            name="failing-query-chunks-one-by-one")
+        res.coverage["list_returning_callables"] = [n for n, _f in list_returning_callables()]
+        if not res.coverage["list_returning_callables"]:
+            res.harness_errors.append("introspection found no public callable returning a list of versions")
+    qc = dict(res.parts.get("queries-then-initialize", {}).get("counters", {}))
+    for k, v in res.parts.get("caller-edits-a-returned-list", {}).get("counters", {}).items():
+        qc[k] = qc.get(k, 0) + v
     res.coverage["query_values"] = qc.get("query-values", 0)
     res.coverage["query_calls"] = qc.get("query-calls", 0)
     res.coverage["query_part_initializes"] = qc.get("cases", 0)
@@ -1012,9 +1277,11 @@ def run(tier: str, only=None) -> core.Result:
     g = res.parts.get("grid", {}).get("counters", {})
     m = res.parts.get("misc", {}).get("counters", {})
     p = res.parts.get("pairing", {}).get("counters", {})
+    os_ = res.parts.get("other-session-stores", {}).get("counters", {})
+    res.coverage["other_store_cases"] = os_.get("cases", 0)
     t = res.parts.get("twostep", {}).get("counters", {})
     evaluations = (g.get("cases", 0) + m.get("cases", 0) + p.get("pairing-cases", 0) + t.get("twostep-cases", 0)
-                   + qc.get("cases", 0) + sq.get("executions", 0))
+                   + qc.get("cases", 0) + sq.get("executions", 0) + os_.get("cases", 0))
     res.coverage["twostep_cases"] = t.get("twostep-cases", 0)
     # (d) strings that a lenient parser reads as a supported date without being the supported string
     look = {sv: sum(1 for v in versions if isinstance(v, str) and v != sv and loose_parse(v) == loose_parse(sv))
@@ -1031,11 +1298,11 @@ def run(tier: str, only=None) -> core.Result:
     res.coverage["pairing_handshakes"] = p.get("pairing-cases", 0)
     res.coverage["misc_cases_also_in_grid"] = misc_dup
     bysig: Dict[str, int] = {}
-    for cc in (g, m, p, t, qc):
+    for cc in (g, m, p, t, qc, os_):
         for k, n in cc.items():
             if k.startswith("sig:"):
                 bysig[k[4:]] = bysig.get(k[4:], 0) + n
-    res.coverage["violating_judgements"] = sum(cc.get("violating-judgements", 0) for cc in (g, m, p, t, qc))
+    res.coverage["violating_judgements"] = sum(cc.get("violating-judgements", 0) for cc in (g, m, p, t, qc, os_))
     res.coverage["violating_judgements_by_signature"] = dict(sorted(bysig.items()))
     res.coverage["rejected_by_parse_message"] = g.get("rejected-by-parse_message", 0) + m.get("rejected-by-parse_message", 0)
     res.coverage["library_supported_set"] = supported
@@ -1058,7 +1325,10 @@ def run(tier: str, only=None) -> core.Result:
         "of EVERY supported date (a lenient strip/split/int parser reads them as that date: trailing newline / CRLF / VT / NBSP / "
         "U+2028 / U+3000, surrounding blanks, leading '+', unpadded and over-padded fields, digit-group underscore, full-width / "
         f"Arabic-Indic / extended Arabic-Indic / Devanagari digits), {len(NON_STRINGS)} non-strings (null, bools, ints, floats, lists, objects) and 'absent' in "
-        "4 envelope shapes; each on a fresh ProtocolHandler.  Two-step: every ordered pair of 12 requested values (one or more per "
+        "4 envelope shapes; each on a fresh ProtocolHandler; the same misc values on handlers whose session_manager was replaced by "
+        "three other BaseSessionManager stores (a recording store, one that keeps rows as dicts and builds a fresh SessionInfo on "
+        "every read, an InMemorySessionManager subclass returning deep copies): get_session(id).protocol_version after the "
+        "handshake must be the answered version for every store.  Two-step: every ordered pair of 12 requested values (one or more per "
         "class: each supported, future / past / non-calendar date, word, supported+newline, Arabic-Indic look-alike, int, null, "
         "absent) as two initialize requests on ONE handler, the second carrying no session id / the first one's / a never-issued "
         "one; the session id returned by each initialize must record the version answered by that initialize.  Sequences: every "
@@ -1072,7 +1342,11 @@ def run(tier: str, only=None) -> core.Result:
         "function of chuk_mcp.protocol.types.versioning and every public ProtocolVersion method (found by introspection) is called "
         "with it in every argument position (alone, beside a supported version, inside lists), then initialize with it on a "
         "fresh handler, on a handler built before any query, and again for the values queried earlier in the execution; the "
-        "canary once more at the end; all judged by the same oracle.  Pairing: every repetition-free ordered client list of length <= "
+        "canary once more at the end; all judged by the same oracle; every public callable without parameters that returns a list "
+        "(found by calling them: versioning functions, ProtocolVersion methods, the initialize module's helpers) x 9 in-place edits of "
+        "the returned list (append / insert / extend / clear / remove / replace / slice-assign / pop / reverse), then initialize "
+        "with the added and with every supported version on a fresh and on an older handler; the library's own lists must be "
+        "unchanged (restored if not).  Pairing: every repetition-free ordered client list of length <= "
         + ("2" if tier == "quick" else "3") + " over the 3 supported versions + 2099-01-01 + 1999-12-31 + 'bogus', x preferred in that "
         "universe or None, real send_initialize against the real handler over memory streams.  distinct = distinct "
         "(requested value, clientInfo, envelope) inputs / (list, preferred) configurations; all are non-trivial (each is judged)"
